@@ -9,6 +9,7 @@ import (
 	"io"
 	"log"
 	"os"
+	"runtime"
 	"strings"
 	"time"
 
@@ -22,7 +23,8 @@ import (
 // Verification driver (build tag verif) for property C01. Only when FABIO_VERIF_DRIVER=c01 is set, the
 // process connects the real consul backend to the Consul HTTP API named in FABIO_VERIF_C01 (a JSON
 // document, see verifC01Cfg), runs the real watchBackend loop in a goroutine and then serves commands on
-// stdin: "dump" prints the canonical dump of route.GetTable() as one JSON line, "quit"/EOF exits.
+// stdin: "dump" prints the canonical dump of route.GetTable() as one JSON line, "idle" prints whether the
+// watchBackend goroutine is parked in its select, "quit"/EOF exits.
 // Nothing here changes behaviour of a normal fabio process.
 
 type verifC01Cfg struct {
@@ -34,6 +36,18 @@ type verifC01Cfg struct {
 	PollMS    int      `json:"poll_ms"`
 	Monitors  int      `json:"monitors"`
 	Debug     bool     `json:"debug"`
+}
+
+// verifC01Idle reports whether the goroutine running watchBackend is parked in a select.
+func verifC01Idle() bool {
+	buf := make([]byte, 1<<20)
+	buf = buf[:runtime.Stack(buf, true)]
+	for _, g := range strings.Split(string(buf), "\n\n") {
+		if strings.Contains(g, "main.watchBackend(") {
+			return strings.HasPrefix(g, "goroutine ") && strings.Contains(strings.SplitN(g, "\n", 2)[0], "[select")
+		}
+	}
+	return false
 }
 
 func init() {
@@ -84,6 +98,11 @@ func init() {
 			b, _ := json.Marshal(route.VerifDump(route.GetTable(), false))
 			out.Write(b)
 			out.WriteByte('\n')
+			out.Flush()
+		case "idle":
+			// is the table loop waiting for the next event? (goroutine of main.watchBackend blocked in its
+			// select) - lets the harness observe the table without sending another event through the loop
+			fmt.Fprintln(out, verifC01Idle())
 			out.Flush()
 		case "quit":
 			os.Exit(0)
